@@ -67,9 +67,9 @@ def parse_result(line):
 
 HOOK_KIND_CPU = set(range(0, 11))
 API_HOOKS = {  # cmd -> (proc hook, thread hook) or (hook,)
-    "scb": (0, 2), "gcb": (1, 3), "spcb": (4,), "gpcb": (5,), "stcb": (6,), "gtcb": (7,), "glcl": (8, 9), "gplcl": (10,),
+    "scb": (0, 2), "gcb": (1, 3), "spcb": (4,), "gpcb": (5,), "stcb": (6,), "gtcb": (7,), "stcbo": (6,), "gtcbo": (7,), "glcl": (8, 9), "gplcl": (10,),
     "smb": (11, 13), "gmb": (12, 14), "spmb": (15,), "gpmb": (16,), "samb": (17,), "gamb": (18,), "gaml": (19,), "amb": (21, 17)}
-SET_CMDS = ("scb", "spcb", "stcb", "smb", "spmb", "samb", "amb")
+SET_CMDS = ("scb", "spcb", "stcb", "stcbo", "smb", "spmb", "samb", "amb")
 
 
 def binding_events(res, mode):
@@ -174,6 +174,14 @@ def spec_eval(T, mode, pres, call, res, st):
         if not got.subset(lim):
             bad.append(("get-area-membind-uninit-mask" if cmd == "gamb" else "get-membind-garbage",
                         "%s reported %s, not inside what the kernel and the topology hold (%s)" % (cmd, res["set"], lim.text())))
+    # (g2) cpubind read-back on this system: exactly the kernel's mask restricted to the complete cpuset
+    if mode == "os" and T.this and res["rc"] == 0 and cmd in ("gtcbo", "gtcb") or (mode == "os" and T.this and res["rc"] == 0 and cmd == "gcb" and (fl & 3) == 2):
+        if res["set"] != "-" and "aff" in st and any(e[0] == "getaffinity" for e in res["events"]):
+            want = st["aff"].inter(G.BS(False, (1 << (T.ccs.fin.bit_length())) - 1))
+            if cmd != "gtcbo":
+                want = want.inter(G.BS(False, (1 << 256) - 1))      # the scripted kernel's cpumask buffer (os nrcpus)
+            if not G.BS.parse(res["set"]).eq(want):
+                bad.append(("cpubind-readback:" + cmd, "%s reports %s, the kernel reported %s (complete cpuset %s)" % (cmd, res["set"], st["aff"].text(), T.ccs.text())))
     # (h) MIGRATE: the source mask handed to migrate_pages must cover every node of the topology
     if mode == "os":
         for ev in res["events"]:
@@ -232,6 +240,8 @@ class Evaluator:
                             run.cov.setdefault("drift", []).append("warm-up: %s / %s" % (cl[ci - 1], ml[ci - 1]))
                 if t[0] == "os" and t[1] == "mempol":
                     st["mempol"] = G.BS.parse(t[3])
+                if t[0] == "os" and t[1] == "aff":
+                    st["aff"] = G.BS.parse(t[2])
                 if t[0] == "os" and t[1] == "ret" and t[2] in ("getcpu", "all"):
                     st["getcpu_fail"] = int(t[3]) < 0
                 continue
@@ -386,6 +396,16 @@ def build_scripts(run, exe):
             s += ["mode os"] + G.gen_os_state(rng)
             if proc == 0 and (ti < 4 or thorough):
                 s += G.boundary_calls(T)
+            if proc == 0 and T.this:
+                # the thread-handle entry points on ANOTHER thread: the kernel reports masks holding the first PU, the
+                # LAST PU of the complete set, each singleton, everything; what is read back must be that mask
+                top = T.ccs.fin.bit_length() - 1
+                pus = [i for i in range(top + 1) if T.ccs.mem(i)]
+                masks = [1 << pus[0], 1 << pus[-1], (1 << pus[0]) | (1 << pus[-1]), T.ccs.fin, T.ccs.fin & ~(1 << pus[-1])] + [1 << i for i in pus[:64]]
+                for m in masks:
+                    mt = G.BS(False, m).text()
+                    s += ["os aff " + mt, "gtcbo 0", "gtcb 0", "gcb 2", "gpcb 0 2", "stcbo %s 0" % mt, "stcb %s 0" % mt]
+                s += G.gen_os_state(rng)
             if proc == 0:
                 # the membind stream: whole-topology / covering / just-short sets on every set-like entry point, by
                 # cpuset and BY NODESET, through the installed hooks and through all-present spy hooks
@@ -495,6 +515,22 @@ def live_part(run, live):
                 script.append("threadload %d %d" % (c, fl))
                 nthread += 1
     script += ["env HWLOC_COMPONENTS"]
+    # round trips on ANOTHER thread (pthread_t), on its tid (HWLOC_CPUBIND_THREAD) and on a parked CHILD process:
+    # first PU, LAST PU, both, every singleton, the whole allowed set, all but the last, some random subsets
+    osets = [1 << cpus[0], 1 << cpus[-1], (1 << cpus[0]) | (1 << cpus[-1]), allowed.fin, allowed.fin & ~(1 << cpus[-1]), allowed.fin & ~(1 << cpus[0])]
+    osets += [1 << c for c in cpus]
+    for _ in range(8 if run.tier == "quick" else 200):
+        m = 0
+        for c in rng.sample(cpus, rng.randint(1, n)):
+            m |= 1 << c
+        osets.append(m)
+    script += ["new", "src native", "load"]
+    nother = 0
+    for m in osets:
+        mt = G.BS(False, m).text()
+        script += ["ot %s 0" % mt, "tp %s 0" % mt, "cp %s 0" % mt, "cp %s 2" % mt]
+        nother += 4
+    script += ["destroy"]
     # binding through a FOREIGN topology, its duplicate and a duplicate of that must not touch the real affinity
     for c in cpus[:16]:
         script.append("foreigndup %d pu:%d" % (c, max(cpus) + 1))
@@ -506,7 +542,7 @@ def live_part(run, live):
     if rc != 0:
         run.violation("live-crash", "live harness failed rc=%d" % rc, "kind: live\nscript:\n%s\nend-script\n%s" % ("\n".join(script[:50]), err.decode(errors="replace")[-2000:]))
         return
-    nrt = nload = nthr = nfor = 0
+    nrt = nload = nthr = nfor = noth = 0
     x86_seen = False
     affs = []
     for l in ol:
@@ -542,6 +578,17 @@ def live_part(run, live):
                               "kind: live\nscript:\nthreadload %s %s\nend-script\n%s\n" % (kv["cpu"], kv["flags"], l))
             elif kv["main_after"] != kv["main_before"]:
                 run.violation("live-load-changes-other-thread", "hwloc_topology_load in a worker changed the main thread's affinity: " + l, "kind: live\n" + l + "\n")
+        elif l.startswith("O "):
+            kv = dict(f.split("=", 1) for f in l.split()[1:])
+            noth += 1
+            want = kv["set"]
+            run.count(l, nontrivial=True, kind="live:other-" + kv["kind"], sample={"live": l})
+            ok = kv["set_rc"] == "0" and kv["get_rc"] == "0" and kv["get"] == want and kv["raw"] == want and kv["last_rc"] == "0" and \
+                G.BS.parse(kv["last"]).subset(G.BS.parse(want)) and not G.BS.parse(kv["last"]).is_empty()
+            if not ok:
+                run.violation("live-roundtrip-other:" + kv["kind"], "bind / read back / last location of another %s disagree: %s" % (
+                    {"ot": "thread (pthread_t)", "tp": "thread (tid, HWLOC_CPUBIND_THREAD)", "cp": "process (child pid)"}[kv["kind"]], l),
+                    "kind: live\nscript:\nnew\nsrc native\nload\n%s %s %s\nend-script\n%s\n" % (kv["kind"], want, kv["flags"], l))
         elif l.startswith("F "):
             kv = dict(f.split("=", 1) for f in l.split()[1:])
             nfor += 1
@@ -554,8 +601,8 @@ def live_part(run, live):
     if len(affs) < 4 or affs[-1] != orig.text() or affs[1] != nontrivial.text() or affs[2] != nontrivial.text():
         run.violation("live-restore", "affinity sequence %r (original %s, test binding %s)" % (affs, orig.text(), nontrivial.text()), "kind: live\n" + "\n".join(ol[-12:]))
     run.cov["live"] = {"observed_not_proved": True, "allowed_cpus": n, "exhaustive_subsets": exhaustive, "round_trips": nrt,
-                       "load_checks": nload, "threaded_load_checks": nthr, "foreign_dup_checks": nfor, "x86_backend_exercised": x86_seen, "original_affinity_restored": bool(affs) and affs[-1] == orig.text()}
-    if nrt != len(subsets) or nload < 6 or nthr != nthread:
+                       "load_checks": nload, "threaded_load_checks": nthr, "foreign_dup_checks": nfor, "other_thread_and_child_round_trips": noth, "x86_backend_exercised": x86_seen, "original_affinity_restored": bool(affs) and affs[-1] == orig.text()}
+    if nrt != len(subsets) or nload < 6 or nthr != nthread or noth != nother:
         run.violation("live-incomplete", "live part produced %d round trips (wanted %d) and %d load checks" % (nrt, len(subsets), nload), "kind: live\n" + "\n".join(ol[-8:]), no_input=True)
 
 
